@@ -326,7 +326,13 @@ func BuildCte(query *Query, expr *sqlparser.With) error {
 	query.data = data
 	for _, cte := range expr.CTEs {
 		copy := *cte
+		evaluating := false
 		query.data[copy.ID.String()] = CteEvaluation(func() (any, error) {
+			if evaluating {
+				return nil, EXPECTATION_FAILED.Extend(fmt.Sprintf("recursive reference to common table expression %s", copy.ID.String()))
+			}
+			evaluating = true
+			defer func() { evaluating = false }()
 			query, err := Prepare(query.data, copy.Subquery, query.options)
 			if err != nil {
 				return nil, err
